@@ -48,17 +48,90 @@ class ProbeMiss(Exception):
     """Raised by the probe factory at the first failed lookup."""
 
 
+_TOUCHED: list[str] = []
+_TRACKED: list[Any] = []
+
+
+def _tracked_class() -> Any:
+    """Undefined objects that the engine creates WITHOUT a failed lookup (an
+    omitted macro argument, forloop.parentloop of an outermost loop,
+    block.super without a parent): the probe cannot abort when they are
+    created (parentloop is created for every loop), so it records whether
+    they are ever touched."""
+    if _TRACKED:
+        return _TRACKED[0]
+    from liquid2 import Undefined
+
+    def t(name: str) -> None:
+        _TOUCHED.append(name)
+
+    class TrackedUndefined(Undefined):
+        __slots__ = ()
+
+        def __getattribute__(self, name: str) -> Any:
+            if name not in ("path", "token", "obj", "hint", "__class__"):
+                t(name)
+            return object.__getattribute__(self, name)
+
+        def __contains__(self, item: object) -> bool:
+            t("__contains__")
+            return False
+
+        def __eq__(self, other: object) -> bool:
+            t("__eq__")
+            return isinstance(other, Undefined) or other is None
+
+        def __getitem__(self, key: Any) -> object:
+            t("__getitem__")
+            return self
+
+        def __len__(self) -> int:
+            t("__len__")
+            return 0
+
+        def __iter__(self) -> Any:
+            t("__iter__")
+            return iter([])
+
+        def __str__(self) -> str:
+            t("__str__")
+            return ""
+
+        def __int__(self) -> int:
+            t("__int__")
+            return 0
+
+        def __hash__(self) -> int:
+            t("__hash__")
+            return hash(object.__getattribute__(self, "path"))
+
+        def __reversed__(self) -> Any:
+            t("__reversed__")
+            return []
+
+    _TRACKED.append(TrackedUndefined)
+    return TrackedUndefined
+
+
 def _classes() -> dict[str, Any]:
     from liquid2 import FalsyStrictUndefined, StrictUndefined, Undefined
 
     def probe(name: str, *, token: Any, hint: str | None = None, **kw: Any) -> Any:
         # RenderContext.get passes a hint at each of its three failure sites;
-        # parentloop / macro defaults / context.resolve do not.
+        # parentloop / macro defaults / block.super / context.resolve do not.
         if hint is not None:
             raise ProbeMiss(name)
-        return Undefined(name, token=token, hint=hint, **kw)
+        return _tracked_class()(name, token=token, hint=hint, **kw)
 
     return {"D": Undefined, "S": StrictUndefined, "F": FalsyStrictUndefined, "P": probe}
+
+
+def _probe_outcome(o: tuple[str, str]) -> tuple[str, str]:
+    """The probe also counts as 'something missing was used' when an undefined
+    created without a failed lookup was touched."""
+    if _TOUCHED and o[0] != "miss":
+        return ("miss", "Touched:" + _TOUCHED[0])
+    return o
 
 
 _ENVS: dict[tuple[str, bool], Any] = {}
@@ -82,10 +155,12 @@ def outcome_of_exception(e: BaseException) -> tuple[str, str]:
 
 
 def render_impl(src: str, data: dict[str, Any], pol: str, auto_escape: bool = False) -> tuple[str, str]:
+    del _TOUCHED[:]
     try:
-        return ("ok", _env(pol, auto_escape).from_string(src).render(**data))
+        o = ("ok", _env(pol, auto_escape).from_string(src).render(**data))
     except Exception as e:  # noqa: BLE001
-        return outcome_of_exception(e)
+        o = outcome_of_exception(e)
+    return _probe_outcome(o) if pol == "P" else o
 
 
 # ---------------------------------------------------------------- AST -> source
@@ -981,11 +1056,13 @@ def partial_sources() -> list[tuple[str, dict[str, str], dict[str, Any], bool]]:
 
 def render_partial(src: str, parts: dict[str, str], data: dict[str, Any], pol: str) -> tuple[str, str]:
     from liquid2 import DictLoader, Environment
+    del _TOUCHED[:]
     try:
         env = Environment(undefined=_classes()[pol], loader=DictLoader(parts))
-        return ("ok", env.from_string(src).render(**data))
+        o = ("ok", env.from_string(src).render(**data))
     except Exception as e:  # noqa: BLE001
-        return outcome_of_exception(e)
+        o = outcome_of_exception(e)
+    return _probe_outcome(o) if pol == "P" else o
 
 
 # ---------------------------------------------------------------- main
@@ -1098,7 +1175,7 @@ def main(chk: C.Check, build: C.Build) -> None:
     # 3. oracle beyond the model
     nbeyond = 0
     for src, data, complete in all_filter_sources():
-        if not thorough and r.random() > 0.07:
+        if not thorough and r.random() > 0.3:
             continue
         for ae in (False, True):
             outs = {pol: render_impl(src, data, pol, ae) for pol in POLS}
@@ -1112,12 +1189,12 @@ def main(chk: C.Check, build: C.Build) -> None:
     phase["kernel_and_oracle_runs"] = round(time.time() - t0, 1)
     defs = str_defs() + DEFS_CASE
     C.correspond(chk, "c16r", IMPORTS, defs, ritems, what="roots_b", shard=300)
-    C.correspond(chk, "c16k", IMPORTS, defs, kitems, what="Undefined primitives", shard=600)
-    C.correspond(chk, "c16", IMPORTS, defs, items, what="Undefined.render", shard=250)
+    C.correspond(chk, "c16k", IMPORTS, defs, kitems, what="Undefined primitives", shard=200)
+    C.correspond(chk, "c16", IMPORTS, defs, items, what="Undefined.render", shard=150)
     # how many template cases did the model decide (not [outside])?  measured on
     # a seeded sample
     probe = [it for it in items if r.random() < (0.25 if thorough else 0.35)]
-    rc = C.run_cases("c16in", IMPORTS, defs, [it["inside"] for it in probe], shard=250)
+    rc = C.run_cases("c16in", IMPORTS, defs, [it["inside"] for it in probe], shard=150)
     inside = len(probe) - len(rc["bad"])
     for e in rc["errors"]:
         chk.notes.append("coq case error (verdict probe): " + e[:300])
